@@ -47,8 +47,12 @@ struct NoProcessGlobalHandler {
   most_recent_import_range: Option<SourceRange>,
 }
 
-fn program_code_start(program: Program) -> SourcePos {
-  match program_ref(program) {
+/// Where a new first statement goes: in front of the first statement, and in
+/// front of a `deno-lint-ignore` directive on the line above it, which has to
+/// stay directly above the statement it is about.
+fn program_code_start(ctx: &Context) -> SourcePos {
+  let program = ctx.program();
+  let code_start = match program_ref(program) {
     ast_view::ProgramRef::Module(m) => m
       .body
       .first()
@@ -59,7 +63,13 @@ fn program_code_start(program: Program) -> SourcePos {
       .first()
       .map(|node| node.start())
       .unwrap_or(program.start()),
-  }
+  };
+  let line = ctx.text_info().line_index(code_start);
+  line
+    .checked_sub(1)
+    .and_then(|above| ctx.line_ignore_directives().get(&above))
+    .map(|directive| directive.range().start)
+    .unwrap_or(code_start)
 }
 
 impl NoProcessGlobalHandler {
@@ -71,7 +81,7 @@ impl NoProcessGlobalHandler {
       if let Some(range) = self.most_recent_import_range {
         (SourceRange::new(range.end(), range.end()), "\n", "")
       } else {
-        let code_start = program_code_start(ctx.program());
+        let code_start = program_code_start(ctx);
         (SourceRange::new(code_start, code_start), "", "\n")
       };
 
